@@ -100,11 +100,14 @@ class ParallelTemperedChain(BaseChain):
         self.swap_interval = swap_interval
         self._temperature_acceptance = None
         self._temperature_swaps = None
-        self.adaptive_annealer = adaptive_annealer
         if adaptive_annealer is not None:
+            # the annealer keeps track of the temperature differences of the
+            # chain it is adapting, so every chain needs its own copy
+            adaptive_annealer = copy.deepcopy(adaptive_annealer)
             # note that pass by reference is required here if setting
             # Tmax=infty
             adaptive_annealer.setup_annealing(self.betas)
+        self.adaptive_annealer = adaptive_annealer
         self.reset_after_swap = reset_after_swap
 
         if self.ntemps > 1:
